@@ -2,5 +2,45 @@ import MdIt.Props.C17
 open MdIt.Url
 #check @encode_alphabet
 #check @encode_ascii
+#check @encodeIdx_total
+#check @keep_decode
+#check @keep_preserves
+#check @keep_tokens
+#check @tokenize_raw
+#check @pctDecode_tokens
+#check @keep_idempotent
+#check @encode_EncK
+#check @fix_on_EncK
+#check @EncK_iff_fixed
+#check @nokeep_roundtrip
+#check @asciiset_spec
+#check @setFrom_spec
+#check @gen_asciiNew
+#check @gen_digits
+#check @gen_keep
+#check @default_set_exact
+#check @default_set_excludes
+#check @default_no_pct
+#check @encode_default_visible
 #print axioms encode_alphabet
 #print axioms encode_ascii
+#print axioms encodeIdx_total
+#print axioms keep_decode
+#print axioms keep_preserves
+#print axioms keep_tokens
+#print axioms tokenize_raw
+#print axioms pctDecode_tokens
+#print axioms keep_idempotent
+#print axioms encode_EncK
+#print axioms fix_on_EncK
+#print axioms EncK_iff_fixed
+#print axioms nokeep_roundtrip
+#print axioms asciiset_spec
+#print axioms setFrom_spec
+#print axioms gen_asciiNew
+#print axioms gen_digits
+#print axioms gen_keep
+#print axioms default_set_exact
+#print axioms default_set_excludes
+#print axioms default_no_pct
+#print axioms encode_default_visible
